@@ -338,3 +338,111 @@ Proof.
   rewrite (Hmd r c Hr Hc). destruct (Heq r c Hr Hc) as [-> _].
   rewrite (median_filter_reads_image_only B rad ny nx _ _ HB Hrad Hmd r c Hr Hc). reflexivity.
 Qed.
+
+(* ================================================================== exact sums *)
+
+Lemma qadd_correct : forall x y, (qadd x y == x + y)%Q.
+Proof.
+  intros [n1 d1] [n2 d2]. unfold qadd. cbn [Qnum Qden].
+  pose proof (Z.ggcd_correct_divisors (Zpos d1) (Zpos d2)) as Hd.
+  pose proof (Z.ggcd_gcd (Zpos d1) (Zpos d2)) as Hg.
+  destruct (Z.ggcd (Zpos d1) (Zpos d2)) as (g & bb & dd). cbn [fst] in Hg. destruct Hd as [H1 H2].
+  assert (Hg0 : 0 <= g) by (subst g; apply Z.gcd_nonneg).
+  assert (Hdd : 0 < dd) by nia.
+  unfold Qeq, Qplus. cbn [Qnum Qden].
+  rewrite Z2Pos.id by nia. rewrite Pos2Z.inj_mul. rewrite H1, H2. ring.
+Qed.
+
+Lemma qsum_sumq : forall l, (qsum l == sumq l)%Q.
+Proof.
+  induction l as [|x l IH]; cbn [qsum sumq fold_right]; [reflexivity|].
+  fold (qsum l). fold (sumq l). rewrite qadd_correct, IH. reflexivity.
+Qed.
+
+(* ================================================================== weighted means *)
+
+Lemma sumq_nonneg : forall l, (forall x, In x l -> (0 <= x)%Q) -> (0 <= sumq l)%Q.
+Proof.
+  induction l as [|x l IH]; intros H; cbn [sumq fold_right]; [lra|]. fold (sumq l).
+  assert (0 <= x)%Q by (apply H; left; reflexivity).
+  assert (0 <= sumq l)%Q by (apply IH; intros; apply H; right; assumption). lra.
+Qed.
+
+Lemma sumq_pos : forall l x, (forall y, In y l -> (0 <= y)%Q) -> In x l -> (0 < x)%Q -> (0 < sumq l)%Q.
+Proof.
+  induction l as [|y l IH]; intros x Hall Hin Hx; [destruct Hin|].
+  cbn [sumq fold_right]. fold (sumq l).
+  assert (0 <= y)%Q by (apply Hall; left; reflexivity).
+  assert (0 <= sumq l)%Q by (apply sumq_nonneg; intros; apply Hall; right; assumption).
+  destruct Hin as [->|Hin]; [lra|].
+  assert (0 < sumq l)%Q by (apply (IH x); auto; intros; apply Hall; right; assumption). lra.
+Qed.
+
+(* convexity: with non-negative weights, a lower (upper) bound of the values bounds the
+   weighted sum by the bound times the sum of the weights *)
+Lemma wsum_lower : forall (terms : list (Q * Q)) a,
+  (forall t, In t terms -> (0 <= fst t)%Q /\ (a <= snd t)%Q) ->
+  (a * sumq (map fst terms) <= sumq (map (fun t : Q * Q => fst t * snd t) terms))%Q.
+Proof.
+  induction terms as [|[w v] terms IH]; intros a H; cbn [map sumq fold_right fst snd]; [lra|].
+  fold (sumq (map fst terms)). fold (sumq (map (fun t : Q * Q => (fst t * snd t)%Q) terms)).
+  destruct (H (w, v) (or_introl eq_refl)) as [Hw Hv]. cbn [fst snd] in Hw, Hv.
+  assert (IH' := IH a (fun t Ht => H t (or_intror Ht))).
+  assert (Hwv : (a * w <= v * w)%Q) by (apply Qmult_le_compat_r; assumption).
+  lra.
+Qed.
+
+Lemma wsum_upper : forall (terms : list (Q * Q)) b,
+  (forall t, In t terms -> (0 <= fst t)%Q /\ (snd t <= b)%Q) ->
+  (sumq (map (fun t : Q * Q => fst t * snd t) terms) <= b * sumq (map fst terms))%Q.
+Proof.
+  induction terms as [|[w v] terms IH]; intros b H; cbn [map sumq fold_right fst snd]; [lra|].
+  fold (sumq (map fst terms)). fold (sumq (map (fun t : Q * Q => (fst t * snd t)%Q) terms)).
+  destruct (H (w, v) (or_introl eq_refl)) as [Hw Hv]. cbn [fst snd] in Hw, Hv.
+  assert (IH' := IH b (fun t Ht => H t (or_intror Ht))).
+  assert (Hwv : (v * w <= b * w)%Q) by (apply Qmult_le_compat_r; assumption).
+  lra.
+Qed.
+
+Lemma wmean_bounds : forall m (terms : list (Q * Q)) a b, is_wmean m terms ->
+  (forall t, In t terms -> (0 <= fst t)%Q /\ (a <= snd t <= b)%Q) ->
+  (a <= m <= b)%Q.
+Proof.
+  intros m terms a b [Hpos Hm] H.
+  assert (Ha := wsum_lower terms a (fun t Ht => conj (proj1 (H t Ht)) (proj1 (proj2 (H t Ht))))).
+  assert (Hb := wsum_upper terms b (fun t Ht => conj (proj1 (H t Ht)) (proj2 (proj2 (H t Ht))))).
+  rewrite <- Hm in Ha, Hb.
+  split; apply (Qmult_le_r _ _ _ Hpos); assumption.
+Qed.
+
+(* the model's quotient is the Spec's weighted mean as soon as the weights sum to > 0 *)
+Lemma wmean_is_wmean : forall terms, (0 < sumq (map fst terms))%Q -> is_wmean (wmean terms) terms.
+Proof.
+  intros terms Hpos. split; [exact Hpos|]. unfold wmean. rewrite !qsum_sumq.
+  field. lra.
+Qed.
+
+Lemma list_min_max : forall l : list Q, l <> [] ->
+  exists a b, In a l /\ In b l /\ forall x, In x l -> (a <= x <= b)%Q.
+Proof.
+  induction l as [|x l IH]; intros Hne; [congruence|].
+  destruct l as [|y l'].
+  - exists x, x. split; [left; reflexivity|]. split; [left; reflexivity|].
+    intros z [<-|[]]. split; apply Qle_refl.
+  - destruct IH as (a & b & Ha & Hb & Hall); [discriminate|].
+    exists (if Qle_bool x a then x else a), (if Qle_bool b x then x else b).
+    assert (Hax : Qle_bool x a = true \/ (Qle_bool x a = false /\ (a <= x)%Q)).
+    { destruct (Qle_bool x a) eqn:E; [left; reflexivity | right; split; [reflexivity|]].
+      apply Qlt_le_weak, Qnot_le_lt. rewrite <- Qle_bool_iff. congruence. }
+    assert (Hbx : Qle_bool b x = true \/ (Qle_bool b x = false /\ (x <= b)%Q)).
+    { destruct (Qle_bool b x) eqn:E; [left; reflexivity | right; split; [reflexivity|]].
+      apply Qlt_le_weak, Qnot_le_lt. rewrite <- Qle_bool_iff. congruence. }
+    split; [destruct (Qle_bool x a); [left; reflexivity | right; exact Ha]|].
+    split; [destruct (Qle_bool b x); [left; reflexivity | right; exact Hb]|].
+    intros z [<-|Hz].
+    + destruct Hax as [E|[E Hle]], Hbx as [E'|[E' Hle']]; rewrite E, E'; split;
+        try apply Qle_refl; try assumption.
+    + destruct (Hall z Hz) as [Hz1 Hz2].
+      destruct Hax as [E|[E Hle]], Hbx as [E'|[E' Hle']]; rewrite E, E';
+        try apply Qle_bool_iff in E; try apply Qle_bool_iff in E'; split; lra.
+Qed.
